@@ -318,6 +318,7 @@ func runC12(e *Engine, r *Report) {
 	}
 	// ---- apply callback carries the state machine's result to the table
 	ruleAppliedArg(e, r)
+	ruleReadBatchCopy(e, r)
 
 	// ---- pool discipline
 	c12Pool(e, r)
